@@ -158,6 +158,7 @@ class Run:
                 self.worlds.append(nw)
                 self.w = nw
                 self.restarted = True
+                self.tr.shadow[self.mid] = []  # a new instance has a new blotter: the shadow list (C15) restarts with it
                 self.w.snapshot()
         except FlumineException as ex_:
             self.log[-1].append("exc:" + type(ex_).__name__)
@@ -304,6 +305,28 @@ def explore(cfg, prefix, depth, out, budget):
     if len(prefix) < depth:
         for c in range(b):
             explore(cfg, prefix + [c], depth, out, budget)
+
+
+def walk(case, observe=None):
+    """Seeded random walk over the event alphabet; `observe(run)` is called after every event (handler step).
+    Returns the Run, closed (hooks detached); used by the live parts of C03 / C10 / C15."""
+    rng = simgen.mk_rng(case["seed"], case["idx"], 11)
+    r = Run(case["cfg"])
+    try:
+        for _ in range(case["len"]):
+            en = r.enabled()
+            if not en:
+                break
+            r.do(rng.choice(en))
+            if observe:
+                observe(r)
+        r.w.executor.run_all()
+        r.w.snapshot()
+        if observe:
+            observe(r)
+    finally:
+        r.close()
+    return r
 
 
 def run(case):
